@@ -48,9 +48,9 @@ let () =
             match String.split_on_char ',' op with
             | [f; n] ->
                 let bc = z_of_int (int_of_string f * int_of_z size) in
-                let s1 = lzma_seek dout lb size orc fuel !st bc in
+                let (s1, _) = lzma_seek dout lb size orc fuel !st bc in
                 let start = int_of_z (cursor s1) in
-                let ((s2, cnt), _) = lzma_read lb size orc fuel s1 (zi n) in
+                let (((s2, cnt), _), _) = lzma_read lb size orc fuel s1 (zi n) in
                 st := s2;
                 Buffer.add_string buf (Printf.sprintf "%d@%d " (int_of_z cnt) start)
             | _ -> ()) ops;
